@@ -33,6 +33,7 @@ type c07Comm struct {
 	pos     int
 	calls   int
 	closed  bool
+	failAll bool // clean-up: every further exchange fails at once
 }
 
 func (t *c07Comm) Close() error { t.closed = true; return nil }
@@ -61,6 +62,9 @@ func (t *c07Comm) deliver(m *dns.Msg) (*dns.Msg, error) {
 }
 
 func (t *c07Comm) SendAndReceive(m *dns.Msg, timeout *time.Duration) (*dns.Msg, time.Duration, error) {
+	if t.failAll {
+		return nil, 0, errors.New("harness is shutting the history down")
+	}
 	fate := "ok"
 	if t.armed {
 		t.calls++
